@@ -331,7 +331,8 @@ def native_replay(cat, pkg, tests_by_module, feats=""):
     try:
         dst = copy_repo(scratch)
         mods = deps_closure(cat, sorted(tests_by_module))
-        inject(cat, dst, scratch, mods, extra_tests={m: "\n".join(ts) for m, ts in tests_by_module.items()})
+        # (`Vec` is shadowed inside src/boxcar.rs)
+        inject(cat, dst, scratch, mods, extra_tests={m: "\n".join(ts).replace("Vec<Vec<u8>>", "std::vec::Vec<std::vec::Vec<u8>>") for m, ts in tests_by_module.items()})
         cmd = ["cargo", "kani", "playback", "-Z", "concrete-playback", "-p", pkg]
         if feats:
             cmd += feats.split()
@@ -653,6 +654,11 @@ def handle_violations(cat, prop, items, dst, scratch):
         for u in us:
             oo = o.get(u["name"], "")
             kout[u["name"]] = "\n".join(l for l in oo.split("\n") if not l.startswith("warning") and "-->" not in l and not re.match(r"^\s*(\d+)?\s*\|", l))
+    # a harness without symbolic inputs yields no generated test: synthesize one with no values
+    # (if the harness does draw values, the playback machinery panics and it counts as not reproduced)
+    for u, _, _ in kani_items:
+        if not tests.get(u["name"]) and u.get("harness"):
+            tests[u["name"]] = ["#[test]\nfn kani_concrete_playback_%s_novalues() {\n    let concrete_vals: Vec<Vec<u8>> = vec![];\n    kani::concrete_playback_run(concrete_vals, %s);\n}\n" % (u["harness"], u["harness"])]
     # one native run per (package, feature set) with all generated tests
     native = {}
     nout = {}
